@@ -32,7 +32,7 @@ import ast
 import itertools
 
 from sa.core import rule, AnalysisError
-from sa.pyindex import get_module, dotted, src
+from sa.pyindex import get_module, dotted
 from rules._pytd_schema import get_schema
 from rules import _util_c11c01 as _u
 
@@ -76,9 +76,14 @@ class Alt:
 
 
 def _merge_alt(a, b):
+  """Both parts were computed on the same path: the element has the classes
+  both allow (their union if the two views do not overlap at all)."""
   r = a.rootmap()
   for s, cl in b.roots:
-    r[s] = (r[s] & cl) if s in r and (r[s] & cl) else (r.get(s, cl) | cl if s in r else cl)
+    if s not in r:
+      r[s] = cl
+    else:
+      r[s] = (r[s] & cl) or (r[s] | cl)
   return Alt(a.cov | b.cov, r.items(), a.imprecise or b.imprecise)
 
 
@@ -142,12 +147,19 @@ class Box:
 
 
 class AV:
-  __slots__ = ("alts", "elem", "coll", "tup", "box", "taint", "opaque", "it", "fn")
+  """What is known about a value: `alts` what it determines of the element(s)
+  it was computed from; `elem` it IS that node (or a Replace-copy of it);
+  `coll` it is a tuple field of nodes; `tup` a literal tuple; `box` a mutable
+  container; `taint` the dicts whose contents flowed into it; `keyof` the dicts
+  it was taken out of as a KEY; `it` one element when iterated; `fn` callable."""
+  __slots__ = ("alts", "elem", "coll", "tup", "box", "taint", "opaque", "it", "fn",
+               "keyof")
 
   def __init__(self, alts=(), elem=None, coll=None, tup=None, box=None,
-               taint=frozenset(), opaque=False, it=None, fn=None):
+               taint=frozenset(), opaque=False, it=None, fn=None, keyof=frozenset()):
     self.alts, self.elem, self.coll, self.tup = tuple(alts), elem, coll, tup
     self.box, self.taint, self.opaque, self.it, self.fn = box, frozenset(taint), opaque, it, fn
+    self.keyof = frozenset(keyof)
 
   def with_(self, **kw):
     d = {s: getattr(self, s) for s in AV.__slots__}
@@ -172,11 +184,21 @@ def all_taint(av, depth=0):
   return frozenset(t)
 
 
+def _blank(av):
+  """Nothing is known about the value (an unset variable, an unknown result)."""
+  return not av.alts and av.elem is None and av.coll is None and av.tup is None \
+      and av.box is None and av.it is None and av.fn is None and not av.opaque
+
+
 def join(a, b):
   if a is None:
     return b
   if b is None or a is b:
     return a
+  if _blank(a) or _blank(b):
+    # "not yet known" joined with a described value: the described value
+    x = b if _blank(a) else a
+    return x.with_(taint=a.taint | b.taint, keyof=a.keyof | b.keyof)
   elem = None
   if a.elem is not None and a.elem.same_place(b.elem):
     elem = ElemRef(a.elem.src, a.elem.path, a.elem.classes | b.elem.classes,
@@ -187,11 +209,10 @@ def join(a, b):
   tup = None
   if a.tup is not None and b.tup is not None and len(a.tup) == len(b.tup):
     tup = tuple(join(x, y) for x, y in zip(a.tup, b.tup))
-  elif a.tup is not None and b is NONE or b.tup is not None and a is NONE:
-    tup = a.tup or b.tup
   it = join(a.it, b.it) if (a.it is not None or b.it is not None) else None
   return AV(_dedupe(a.alts + b.alts), elem, coll, tup, a.box or b.box,
-            a.taint | b.taint, a.opaque or b.opaque, it, a.fn or b.fn)
+            a.taint | b.taint, a.opaque or b.opaque, it, a.fn or b.fn,
+            a.keyof | b.keyof)
 
 
 class Frame:
@@ -310,7 +331,8 @@ def covered(ty, cov, s, path, classes, is_tuple=False, depth=0):
   if depth > 6 or not classes:
     return [path]
   if is_tuple:
-    return covered(ty, cov, s, path + ("*",), classes, False, depth + 1)
+    m = covered(ty, cov, s, path + ("*",), classes, False, depth + 1)
+    return [path] if m == [path + ("*",)] else m
   if len(classes) > 1 and (s, path + (CLS,)) not in cov:
     return [path]
   missing, partial = [], False
@@ -360,7 +382,8 @@ class Interp:
   def from_box(self, box, which="val"):
     v = (box.val if which == "val" else box.key) or NONE
     extra = {box} if box.kind == "dict" else set()
-    return v.with_(taint=v.taint | extra)
+    return v.with_(taint=v.taint | extra,
+                   keyof=(v.keyof | extra) if which == "key" else frozenset())
 
   def elem_av(self, ref):
     cov = {(ref.src, ref.path)}
@@ -373,15 +396,16 @@ class Interp:
       s, path, classes, root = av.coll
       return self.elem_av(ElemRef(s, path + ("*",) if path or not s.startswith("<") else path,
                                   classes, root if path else classes)).with_(taint=av.taint)
+    if av.box is not None:
+      # (a list literal is also a box: it may have grown since it was written)
+      if av.box.kind == "dict":
+        return self.from_box(av.box, "key")
+      return self.from_box(av.box).with_(taint=(av.box.val or NONE).taint | av.taint)
     if av.tup is not None:
       out = None
       for x in av.tup:
         out = join(out, x)
       return (out or NONE).with_(taint=(out or NONE).taint | av.taint)
-    if av.box is not None:
-      if av.box.kind == "dict":
-        return self.from_box(av.box, "key")
-      return self.from_box(av.box).with_(taint=(av.box.val or NONE).taint | av.taint)
     return AV(taint=av.taint, opaque=av.opaque, alts=_lossy(av.alts))
 
   def unknown(self, parts, opaque=None):
@@ -715,7 +739,7 @@ class Interp:
       return self.from_box(v.box)
     if isinstance(e.slice, ast.Slice):
       return v
-    if v.tup is not None and isinstance(e.slice, ast.Constant) and \
+    if v.tup is not None and v.box is None and isinstance(e.slice, ast.Constant) and \
         isinstance(e.slice.value, int) and -len(v.tup) <= e.slice.value < len(v.tup):
       x = v.tup[e.slice.value]
       return x.with_(taint=x.taint | v.taint)
@@ -956,8 +980,6 @@ class Interp:
     a0 = args[0] if args else NONE
     b = recv.box
     if b is None:
-      if recv.tup is not None or recv.fn is not None:
-        return self.unknown([recv] + args)
       return self.unknown([recv] + args)
     if b.kind == "dict":
       if name in ("get", "pop"):
@@ -1009,8 +1031,7 @@ class Interp:
         self.store(b, v)
         return NONE
       if name in ("pop", "popleft"):
-        return self.iter_elem(recv.with_(it=None) if recv.coll is None else recv) \
-            if recv.coll is not None else self.from_box(b)
+        return self.iter_elem(recv) if recv.coll is not None else self.from_box(b)
       if name in ("copy", "sort", "reverse", "clear", "index", "count"):
         return recv if name == "copy" else NONE
       return self.unknown([recv] + args, opaque=False)
@@ -1030,9 +1051,8 @@ class Interp:
     env = dict(closure) if closure else {}
     a = fn.args
     params = a.posonlyargs + a.args
-    defaults = [None] * (len(params) - len(a.defaults)) + list(a.defaults)
-    for p, dflt in zip(params, defaults):
-      env[p.arg] = NONE
+    for p in params:
+      env[p.arg] = NONE          # (defaults are constants / None here)
     for p, v in zip(params, args):
       env[p.arg] = v
     for p in a.kwonlyargs:
@@ -1104,9 +1124,14 @@ class Interp:
     taint = frozenset().union(*[all_taint(v) for v in given.values()]) if given else frozenset()
     copied = []
     for f, v in given.items():
-      r = v.elem
-      if r is not None and r.blanked is None and r.path and r.path[-1] != "*" \
-          and (r.src, r.path) in {x for a in v.alts for x in a.cov}:
+      # the argument IS a field of an element (`first.params`): taken over as it is
+      r = None
+      if v.elem is not None and v.elem.blanked is None:
+        r = (v.elem.src, v.elem.path, v.elem.classes, False)
+      elif v.coll is not None:
+        r = (v.coll[0], v.coll[1], v.coll[2], True)
+      if r is not None and r[1] and r[1][-1] != "*" \
+          and (r[0], r[1]) in {x for a in v.alts for x in a.cov}:
         copied.append((f, r, v))
     if copied:
       self.sites.append({
@@ -1140,10 +1165,7 @@ def _visitor_classes(mod, ty):
   for cname, cd in mod.classes.items():
     if cd not in mod.tree.body:
       continue
-    try:
-      meths = _u.methods_mro(mod, cname)
-    except AnalysisError:
-      raise
+    meths = _u.methods_mro(mod, cname)
     hooks = [(n, m) for n, m in meths.items() if _hook_class(ty, n)
              and len(m.args.args) >= 2]
     if hooks:
@@ -1190,6 +1212,59 @@ def _gov_boxes(taint, s):
   return [b for b in taint if b.kind == "dict" and _mentions(b.key, s)]
 
 
+def _governing(entry, boxes):
+  if any(b.key.opaque for b in boxes):
+    raise AnalysisError(
+        f"{entry}: the group key of `{boxes[0].name}` is computed from the "
+        "element in a way the rule does not model")
+  return [(f"the key of `{b.name or 'the group dict'}`", b.key.alts) for b in boxes]
+
+
+def _merge_site(ty, entry, site):
+  """-> (element source, [(field, path, classes, is_tuple)] taken over from one
+  member, [(description, alternatives of the governing key)], text) or None when
+  the site does not merge a group."""
+  if site["kind"] == "Replace":
+    recv = site["recv"]
+    ref = recv.elem
+    if ref.src.startswith("visit:"):
+      return None
+    taint = all_taint(recv) | site["kw_taint"]
+    kept = site["kept"]
+    if ref.blanked is not None and recv.keyof:
+      # the receiver is the stripped copy the members were grouped by, taken
+      # out of the group dict as its key: it carries what the key determines
+      boxes = sorted(recv.keyof, key=lambda b: b.id)
+      govs = [("the stripped copy the members are grouped by", recv.alts)]
+    else:
+      # a member (or a local copy of one: what was replaced before is not
+      # taken over from it)
+      boxes = _gov_boxes(taint, ref.src)
+      if not boxes:
+        return None
+      govs = _governing(entry, boxes)
+      kept = [f for f in kept if f not in (ref.blanked or ())]
+    need = [(f, ref.path + (f,)) + ty.field_type(ref.classes, f) for f in kept]
+    what = (f"{'/'.join(sorted(ref.classes))}.Replace("
+            f"{', '.join(k + '=..' for k in site['kw'])})")
+    return ref.src, need, govs, what, boxes
+  taint = frozenset().union(*[all_taint(x) for x in site["given"].values()])
+  s, need, govs, held = None, [], [], []
+  for f, r, _ in site["copied"]:
+    boxes = _gov_boxes(taint, r[0])
+    if not boxes or r[0].startswith("visit:") or (s is not None and r[0] != s):
+      continue
+    s = r[0]
+    held += [b for b in boxes if b not in held]
+    need.append((f, r[1], r[2], r[3]))
+    for g in _governing(entry, boxes):
+      if g not in govs:
+        govs.append(g)
+  if not govs:
+    return None
+  return s, need, govs, f"pytd.{site['ctor']}(..)", held
+
+
 @rule("R11.21", "C11", floor=2)
 def r11_21(ctx):
   """What a merged node takes over from one member of its group is determined
@@ -1198,47 +1273,10 @@ def r11_21(ctx):
   for entry, rel, it in runs:
     results = {}
     for site in it.sites:
-      if site["kind"] == "Replace":
-        recv = site["recv"]
-        ref = recv.elem
-        if ref.src.startswith("visit:"):
-          continue
-        taint = all_taint(recv) | site["kw_taint"]
-        if ref.blanked is not None:
-          # the receiver is itself a stripped copy (the key, or derived from it)
-          if not _gov_boxes(taint, ref.src) and not any(
-              b.kind == "dict" for b in taint):
-            continue
-          govs = [("the stripped copy it is built from", recv.alts)]
-        else:
-          boxes = _gov_boxes(taint, ref.src)
-          if not boxes:
-            continue
-          govs = [(f"the key of `{b.name or 'the group dict'}`", b.key.alts) for b in boxes]
-          if any(b.key.opaque for b in boxes):
-            raise AnalysisError(
-                f"{entry}: the group key of `{boxes[0].name}` is computed from the "
-                "element in a way the rule does not model")
-        need = [(f, ref.path + (f,)) + ty.field_type(ref.classes, f) for f in site["kept"]]
-        what = f"{'/'.join(sorted(ref.classes))}.Replace({', '.join(k + '=..' for k in site['kw'])})"
-      else:
-        govs, need = [], []
-        ref = None
-        for f, r, v in site["copied"]:
-          taint = frozenset().union(*[all_taint(x) for g, x in site["given"].items() if g != f])
-          boxes = _gov_boxes(taint | all_taint(v), r.src)
-          if not boxes or r.src.startswith("visit:"):
-            continue
-          ref = ref or r
-          need.append((f, r.path, r.classes, False))
-          for b in boxes:
-            g = (f"the key of `{b.name or 'the group dict'}`", b.key.alts)
-            if g not in govs:
-              govs.append(g)
-        if not govs:
-          continue
-        what = f"pytd.{site['ctor']}(..)"
-      s = ref.src
+      ms = _merge_site(ty, entry, site)
+      if ms is None:
+        continue
+      s, need, govs, what, _ = ms
       missing, imprecise = [], False
       for gname, alts in govs:
         for a in alts:
@@ -1253,8 +1291,10 @@ def r11_21(ctx):
                                          "imprecise": False})
       r["missing"] += [m for m in missing if m not in r["missing"]]
       r["imprecise"] = r["imprecise"] or imprecise
-      r["sites"].append(f"{site['frame']}: {what} keeps {[n[0] for n in need]} from "
-                        f"one member; governed by {[g for g, _ in govs]}")
+      text = (f"{site['frame']}: {what} keeps {[n[0] for n in need]} from one member; "
+              f"governed by {[g for g, _ in govs]}")
+      if text not in r["sites"]:
+        r["sites"].append(text)
     for construct, r in sorted(results.items()):
       if r["missing"] and r["imprecise"]:
         raise AnalysisError(f"{construct}: an isinstance test on the element names "
@@ -1278,16 +1318,27 @@ def r11_22(ctx):
   ty, runs = analyse(ctx)
   found_join = False
   for entry, rel, it in runs:
-    dict_keys = [tuple(sorted(a.key() for a in b.key.alts)) for b in it.boxes
-                 if b.kind == "dict" and b.key is not None and b.key.alts]
+    # dicts that hold the groups of a merge (R11.21 judges their keys)
+    grouping = []
+    for site in it.sites:
+      ms = _merge_site(ty, entry, site)
+      if ms is not None:
+        grouping += [b for b in ms[4] if b not in grouping]
+    group_keys = [tuple(sorted(a.key() for a in b.key.alts)) for b in grouping
+                  if b.key is not None]
     results = {}
     for b in it.boxes:
-      if b.kind != "set" or b.key is None or not b.key.alts:
+      if b.kind not in ("set", "dict") or b.key is None or not b.key.alts or b in grouping:
         continue
-      # the marker set of a grouping (same key as a dict of the class): R11.21
-      if tuple(sorted(a.key() for a in b.key.alts)) in dict_keys:
+      # the marker set of a grouping (`done`: same key as the group dict): R11.21
+      if tuple(sorted(a.key() for a in b.key.alts)) in group_keys:
         continue
+      # the element itself survives next to the key: appended / yielded where
+      # the key is used, or stored as the dict's value (a dict as ordered set)
       kept = set().union(*[fr.kept for fr in b.key_frames]) if b.key_frames else set()
+      if b.kind == "dict" and b.val is not None and b.val.elem is not None and \
+          b.val.elem.blanked is None:
+        kept = kept | {(b.val.elem.src, b.val.elem.path)}
       srcs = {s for a in b.key.alts for s in a.rootmap() if (s, ()) in kept}
       for s in sorted(srcs):
         if b.key.opaque:
@@ -1356,6 +1407,72 @@ def _seen_new(keyexpr, prelude=""):
 
 _HELPER_AT = "def JoinTypes(types):\n"
 
+# the two loops of CombineReturnsAndExceptions, for variants that re-shape both
+_LOOP1_OLD = ("    groups = {}  # Signature -> ReturnsAndExceptions\n"
+              "    for sig in signatures:\n"
+              "      stripped_signature = sig.Replace(return_type=None, exceptions=None)\n"
+              "\n"
+              "      ret = groups.get(stripped_signature)\n"
+              "      if not ret:\n"
+              "        ret = _ReturnsAndExceptions()\n"
+              "        groups[stripped_signature] = ret\n"
+              "\n"
+              "      ret.Update(sig)\n")
+_LOOP2_OLD = ("    for stripped_signature, ret_exc in groups.items():\n"
+              "      ret = pytd_utils.JoinTypes(ret_exc.return_types)\n"
+              "      exc = tuple(ret_exc.exceptions)\n"
+              "\n"
+              "      new_signatures.append(\n"
+              "          stripped_signature.Replace(return_type=ret, exceptions=exc)\n"
+              "      )\n")
+
+
+def _members_in_lists(key, rebuild):
+  """Groups hold the list of their members; the merged signature is rebuilt
+  from the first member (`rebuild` = how)."""
+  return [(OPT, _LOOP1_OLD,
+           "    groups = collections.defaultdict(list)\n"
+           "    for sig in signatures:\n"
+           f"      groups[{key}].append(sig)\n"),
+          (OPT, _LOOP2_OLD,
+           "    for members in groups.values():\n"
+           "      first = members[0]\n"
+           "      ret = pytd_utils.JoinTypes([m.return_type for m in members])\n"
+           "      exc = tuple(pytd_utils.OrderedSet(\n"
+           "          e for m in members for e in m.exceptions))\n"
+           f"      new_signatures.append({rebuild})\n")]
+
+
+_REPLACE_FIRST = "first.Replace(return_type=ret, exceptions=exc)"
+_CTOR_FIRST = ("pytd.Signature(params=first.params, starargs=first.starargs, "
+               "starstarargs=first.starstarargs, return_type=ret, exceptions=exc, "
+               "template=first.template)")
+_STRIPPED = "sig.Replace(return_type=None, exceptions=None)"
+
+_QUEUE_OLD = ("  queue = collections.deque(types)\n"
+              "  seen = set()\n"
+              "  new_types = []\n"
+              "  while queue:\n"
+              "    t = queue.popleft()\n"
+              "    if isinstance(t, pytd.UnionType):\n"
+              "      queue.extendleft(reversed(t.type_list))\n"
+              "    elif isinstance(t, pytd.NothingType):\n"
+              "      pass\n" + _SEEN_OLD)
+
+
+def _dict_as_ordered_set(key):
+  return ("  queue = collections.deque(types)\n"
+          "  unique = {}\n"
+          "  while queue:\n"
+          "    t = queue.popleft()\n"
+          "    if isinstance(t, pytd.UnionType):\n"
+          "      queue.extendleft(reversed(t.type_list))\n"
+          "      continue\n"
+          "    if isinstance(t, pytd.NothingType):\n"
+          "      continue\n"
+          f"    unique.setdefault({key}, t)\n"
+          "  new_types = list(unique.values())\n")
+
 VARIANTS = [
     # -- R11.21 ------------------------------------------------------------------
     {"name": "seeded-C11-r3m1", "rule": "R11.21", "patch": "seeded/C11-r3m1/patch.diff",
@@ -1415,7 +1532,6 @@ VARIANTS = [
      "edits": [(OPT, _GROUP_OLD, "      stripped_signature = self._Arguments(sig)\n"),
                (OPT, "  def _GroupByArguments(self, signatures):\n",
                 "  def _Arguments(self, signature):\n"
-                "    blank = dict(return_type=None, exceptions=None)\n"
                 "    return signature.Replace(return_type=None, exceptions=None)\n\n"
                 "  def _GroupByArguments(self, signatures):\n")]},
     {"name": "twin-container-key-guard-clause", "rule": "R11.21", "file": OPT, "expect": "silent",
@@ -1424,6 +1540,16 @@ VARIANTS = [
             "      return t.base_type\n"
             "    arity = len(t.parameters)\n"
             "    return (t.base_type, arity)\n"},
+    {"name": "twin-members-in-lists-first-one-rebuilt", "rule": "R11.21", "expect": "silent",
+     "edits": _members_in_lists(_STRIPPED, _REPLACE_FIRST)},
+    {"name": "members-in-lists-grouped-by-parameter-types", "rule": "R11.21", "expect": "fire",
+     "edits": _members_in_lists("tuple(p.type for p in sig.params)", _REPLACE_FIRST)},
+    {"name": "twin-merged-signature-from-constructor", "rule": "R11.21", "expect": "silent",
+     "edits": _members_in_lists(
+         "(sig.params, sig.starargs, sig.starstarargs, sig.template)", _CTOR_FIRST)},
+    {"name": "merged-signature-from-constructor-key-without-template", "rule": "R11.21",
+     "expect": "fire",
+     "edits": _members_in_lists("(sig.params, sig.starargs, sig.starstarargs)", _CTOR_FIRST)},
     # -- R11.22 ------------------------------------------------------------------
     {"name": "seeded-C11-r3m2", "rule": "R11.22", "patch": "seeded/C11-r3m2/patch.diff",
      "expect": "fire"},
@@ -1477,6 +1603,14 @@ VARIANTS = [
      "expect": "silent", "old": _SEEN_OLD, "new": _seen_new("(type(t), t)")},
     {"name": "twin-benign-C11-r1-duplicates-dropped-in-a-generator", "rule": "R11.22",
      "patch": "benign/C11-r1/patch.diff", "expect": "silent"},
+    {"name": "twin-dict-as-ordered-set-keyed-by-the-type", "rule": "R11.22", "file": UTILS,
+     "expect": "silent", "old": _QUEUE_OLD, "new": _dict_as_ordered_set("t")},
+    {"name": "dict-as-ordered-set-late-types-keyed-by-name", "rule": "R11.22", "file": UTILS,
+     "expect": "fire", "old": _QUEUE_OLD,
+     "new": _dict_as_ordered_set("(t.name if isinstance(t, pytd.LateType) else t)")},
+    {"name": "twin-exact-class-test-before-decomposing", "rule": "R11.22", "file": UTILS,
+     "expect": "silent", "old": _SEEN_OLD,
+     "new": _seen_new("((t.base_type, t.parameters) if type(t) is pytd.GenericType else t)")},
     {"name": "duplicate-key-through-an-unknown-function", "rule": "R11.22", "file": UTILS,
      "expect": "error", "old": _SEEN_OLD, "new": _seen_new("printer.PrintVisitor.Key(t)")},
 ]
